@@ -190,7 +190,9 @@ func runC10(c *Ctx, r *Report) {
 	r.Doc("R-C10.8", "the outcome does not depend on the fetch concurrency: no configuration of slots and queued hashes stalls the dispatcher (slot release before the mutex, worker accounting on every path)")
 	importRules(c, r, "C11", []string{"R-C11.1", "R-C11.6"}, "R-C10.8")
 	r.Doc("R-C10.11", "the loops that trim, put back and select entries process every element")
-	loopsComplete(c, r, "R-C10.11", func(fn *Fn) bool { return rootNamed(fn, "fromMultihash", "fromEntryHash", "fromJSON", "fromEntry", "lastEntries", "entrySlice", "dropOldestOthers", "Difference") }, "entries after the point where the loop stops are not considered: the kept set is not the most recent one, or supplied entries are dropped")
+	loopsComplete(c, r, "R-C10.11", func(fn *Fn) bool {
+		return rootNamed(fn, "fromMultihash", "fromEntryHash", "fromJSON", "fromEntry", "lastEntries", "entrySlice", "dropOldestOthers", "Difference")
+	}, "entries after the point where the loop stops are not considered: the kept set is not the most recent one, or supplied entries are dropped")
 	r.Doc("R-C10.9", "the loaders only sort slices they own: a list that may share its backing array with a caller-supplied slice (append(param, …)) is never sorted in place — the caller's supplied entries would be overwritten and the wrong entries put back")
 	{
 		nsort := 0
@@ -330,6 +332,46 @@ func runC10(c *Ctx, r *Report) {
 					}
 				}
 			}
+			// the entries that must not be dropped are the supplied ones — not the ones that were just found missing
+			if diffCall != nil {
+				for x := range backSlice(vals, nil) {
+					call, ok := x.(*ssa.Call)
+					if !ok || call.Parent() != sfe || call == diffCall {
+						continue
+					}
+					cal := call.Call.StaticCallee()
+					if cal == nil || !p.firstParty(calleePkg(cal)) {
+						continue
+					}
+					countArg := false
+					for _, a := range call.Call.Args {
+						if isIntType(a.Type()) && isLenOfDiff(a) {
+							countArg = true
+						}
+					}
+					if !countArg {
+						continue
+					}
+					nSlices, keepOK, keepFromDiff := 0, false, false
+					for _, a := range call.Call.Args {
+						if _, isSl := a.Type().Underlying().(*types.Slice); !isSl {
+							continue
+						}
+						nSlices++
+						sl := backSlice(a, nil)
+						if sl[ssa.Value(diffCall)] {
+							keepFromDiff = true
+						} else if sl[ssa.Value(srcPar)] && mayAliasParam(a, sfe) != "" {
+							keepOK = true
+						}
+					}
+					if nSlices >= 2 {
+						r.Check(keepOK && !keepFromDiff, "R-C10.10", r.Key("R-C10.10", fe, "keep-set", cal.Name()), call.Pos(),
+							"the entries protected from being dropped are the supplied entries",
+							"the helper that makes room ("+cal.Name()+") is not given the supplied entries as the set to protect (it is given a list derived from the entries found missing, or another list): supplied entries that are still in the kept list are dropped to make room")
+					}
+				}
+			}
 		}
 		key := r.Key("R-C10.10", fe, "put-back", "")
 		if vals == nil || diffCall == nil {
@@ -343,7 +385,6 @@ func runC10(c *Ctx, r *Report) {
 	cnt := map[string]int{}
 	guardObligations(c, r, repoLockEngine(c), "R-C10.6", map[string]bool{"Fetcher": true}, cnt)
 	r.Floor("R-C10.6", "Fetcher guarded field accesses", cnt["Fetcher.tasksCache"]+cnt["Fetcher.maxClock"]+cnt["Fetcher.minClock"], 6)
-
 
 	// R-C10.3
 	n := 0
